@@ -284,7 +284,21 @@ def rule_random(ck):
     ck.floor("C19.R8", n, 1, "random call sites in StochasticNetwork")
 
 
+def rule_empty_station(ck, rid="C19.R9"):
+    """an unplug event of an EV that already left early finds its old station empty (or re-occupied): every dereference of a
+    station's occupant in the stochastic network is guarded against None on every path - an AttributeError there aborts the run
+    and the remaining sessions never leave"""
+    from ..nullflow import check_optional_attr
+    repo = ck.repo
+    n = 0
+    for q in ("StochasticNetwork.unplug", "StochasticNetwork.post_charging_update", "StochasticNetwork.plugin", "StochasticNetwork.available_evses"):
+        f = repo.fn(q)
+        n += check_optional_attr(ck, rid, f, flow_of(f), attr="ev", deref_only=True)
+    ck.floor(rid, n, 2, "dereferences of a station's occupant in the stochastic network")
+
+
 def run(ck):
+    rule_empty_station(ck)
     rule_plugin(ck)
     rule_fifo(ck)
     rule_unplug(ck)
